@@ -200,6 +200,19 @@ def strategy_case(draw: Any) -> Dict[str, Any]:
     kind = weighted[case_hash(base) % len(weighted)]
     position = draw(st.sampled_from(faults[kind]))
     base["fault"] = {"kind": kind, "position": list(position) if isinstance(position, tuple) else position, "variant": draw(st.integers(0, 5))}
+    # a third of the row / structure / config faults are run with a date window as well: -f / -t choose what is *reported*, the
+    # whole input is still the input - a fault in a row outside the window is a fault (JP refuses -f with -t: one of them only)
+    if not kind.startswith("cli_") and draw(st.integers(0, 2)) == 0:
+        all_txs = [model.make_tx(dict(r, row=1)) for spec in base["assets"].values() for _, rows in spec["tables"] for r in rows]
+        first, second = draw(gen.window_date(all_txs)), draw(gen.window_date(all_txs))
+        if first and second:
+            wkind = draw(st.integers(0, 2))
+            if wkind == 0 or base["country"] == "jp":
+                base["window_args"] = ["-t", min(first, second)] if draw(st.booleans()) else ["-f", max(first, second)]
+            elif wkind == 1:
+                base["window_args"] = ["-t", min(first, second)]
+            else:
+                base["window_args"] = ["-f", min(first, second), "-t", max(first, second)]
     base["check_base"] = draw(st.integers(0, 5)) == 0
     return base
 
@@ -451,7 +464,7 @@ def build(case: Dict[str, Any], folder: str, with_fault: bool = True) -> Tuple[s
 def run(case: Dict[str, Any], folder: str, with_fault: bool = True) -> Tuple[cli.CliResult, str]:
     ini, ods, extra_args, env = build(case, folder, with_fault)
     outdir = os.path.join(folder, "out_fault" if with_fault else "out_base")
-    args = cli.build_args(ini, ods, outdir, method=case.get("method") if not (with_fault and case["fault"]["kind"].startswith("cli_method")) else None, lang=case.get("lang"), extra=extra_args)
+    args = cli.build_args(ini, ods, outdir, method=case.get("method") if not (with_fault and case["fault"]["kind"].startswith("cli_method")) else None, lang=case.get("lang"), extra=list(extra_args) + list(case.get("window_args") or []))
     env_extra: Dict[str, Any] = {}
     if case["country"] == "generic":
         env_extra = {"CURRENCY_CODE": "usd", "LONG_TERM_CAPITAL_GAINS": str(case.get("long_term_days", 365))}
@@ -465,6 +478,8 @@ def evaluate(case: Dict[str, Any]) -> Outcome:
     out.nontrivial = True
     kind = case["fault"]["kind"]
     out.classes.add(f"fault_{kind}")
+    if case.get("window_args"):
+        out.classes.add("with_date_window_" + "+".join(a for a in case["window_args"] if a.startswith("-")))
     out.classes.add(f"country_{case['country']}")
     folder = cli_common.work_dir("c12")
     try:
